@@ -47,9 +47,8 @@ MANIFEST = dict(
          "per case); set / frozenset iteration order is taken from CPython (the harness ships the order it "
          "observed); user callables from a finite catalogue; Regex group capture and chain_child scope effects "
          "belong to C07. Hypothesis of the two-valued reading: Optional defaults are plain values (a T default "
-         "that cannot be evaluated ends the match in its PathAccessError). GATED (GATE_DEEPCOPY_M in "
-         "harness/props/c10.py): deep copies / pickle round trips of patterns with an `M` operand - genuine "
-         "glom defect, `copy.deepcopy(M > 3)` accepts every target.",
+         "that cannot be evaluated ends the match in its PathAccessError). Copies (copy / deepcopy / pickle) "
+         "of patterns with an `M` operand are inside the correspondence since the repair 8acd988 (F43).",
     technique='Lean 4 refinement proof (code-shaped matcher = documented conformance relation) + facts obligations '
               'by decide + differential correspondence (single calls, call sequences, histories with '
               'abc.register, copied patterns)',
